@@ -17,13 +17,28 @@ structure MonOp where
   key : Option Attrs
   inp : Bytes := []
   out : Bytes := []
+  pub : Option Attrs := none      -- attributes of the public half, when the key is the private half of a pair generated in this transcript
   deriving Inhabited
 
-abbrev Mon := List (Nat × MonOp)
+/-- the monitor's memory: the operations it follows, attribute values the token disclosed through C_GetAttributeValue for attributes whose value the state
+    model does not compute (public values of GENERATED keys: modulus, public exponent, EC point), and which public key belongs to which generated private key -/
+structure Mon where
+  ops : List (Nat × MonOp) := []
+  learned : List ((Nat × Nat) × Bytes) := []
+  pairs : List (Nat × Nat) := []
+  deriving Inhabited
 
-def Mon.get (m : Mon) (h : Nat) : Option MonOp := m.lookup h
-def Mon.set (m : Mon) (h : Nat) (o : MonOp) : Mon := (h, o) :: m.filter (·.1 != h)
-def Mon.drop (m : Mon) (h : Nat) : Mon := m.filter (·.1 != h)
+def Mon.get (m : Mon) (h : Nat) : Option MonOp := m.ops.lookup h
+def Mon.set (m : Mon) (h : Nat) (o : MonOp) : Mon := { m with ops := (h, o) :: m.ops.filter (·.1 != h) }
+def Mon.drop (m : Mon) (h : Nat) : Mon := { m with ops := m.ops.filter (·.1 != h) }
+
+/-- the attributes of an object as the monitor knows them: the model's, with disclosed values filled in where the model has none -/
+def Mon.attrsOf (m : Mon) (o : Obj) : Attrs :=
+  m.learned.foldl (fun a e =>
+    if e.1.1 != o.oid then a else
+    match getA a e.1.2 with
+    | none | some .unk => setA a e.1.2 (.bytes e.2)
+    | _ => a) o.attrs
 
 def attrBytes (o : Attrs) (ty : Nat) : Option Bytes := match getA o ty with | some (.bytes v _) => some v | _ => none
 
@@ -91,11 +106,13 @@ def refVerify (o : MonOp) (sig : Bytes) : Option Bool := do
   else if kt == CKK.EC && o.mech == 0x1041 then
     let oid ← attrBytes ka 0x180
     if oid != p256Oid then none else
-    -- the public point: from CKA_EC_POINT of a public key, or d·G for a private key whose value is known
+    -- the public point: from CKA_EC_POINT of a public key, or d·G for a private key whose value is known, or the point of the public half of a generated pair
     let q : Option (Nat × Nat) :=
       match attrBytes ka 0x181 with
       | some pt => parseP256Point pt
-      | none => (attrBytes ka CKA.VALUE).bind fun d => P256.mul (bytesToNat d) P256.G
+      | none => match attrBytes ka CKA.VALUE with
+        | some d => P256.mul (bytesToNat d) P256.G
+        | none => (o.pub.bind (attrBytes · 0x181)).bind parseP256Point
     q.map fun qq => ecdsaVerifyP256 qq o.inp sig
   else (refMac o).map (· == sig)
 
@@ -151,6 +168,28 @@ def step (st : State) (m : Mon) (op res : List String) : Mon × Option (Option S
   let finish (o : MonOp) (sig : Option Bytes) : Mon × Option (Option String × String) :=
     let (d, cls) := judgeFinish o rv sig
     (m.drop h, some (d, s!"{o.kind}:{String.ofList (Nat.toDigits 16 o.mech)}:{cls}"))
+  -- what the token discloses about keys the model did not make: remembered for the reference computations
+  if op.headD "" == "getattr" then
+    match resolveObj st (((res.getD 2 "").toNat?).getD 0) with
+    | none => (m, none)
+    | some (_, ob) =>
+      let add := (res.drop 3).filterMap fun w =>
+        match w.splitOn ":" with
+        | [ty, _, d] => if d == "-" then none else
+            match (parseHex ("0" ++ ty)).orElse (fun _ => parseHex ty), parseHex d with
+            | some tb, some v => some ((ob.oid, bytesToNat tb), v)
+            | _, _ => none
+        | _ => none
+      ({ m with learned := add ++ m.learned.filter (fun e => !add.any (·.1 == e.1)) }, none)
+  else if op.headD "" == "genpair" then
+    match res with
+    | [rvw, _, h1, h2] =>
+      if rvw != "0" then (m, none) else
+      match resolveObj st (h1.toNat?.getD 0), resolveObj st (h2.toNat?.getD 0) with
+      | some (_, pubO), some (_, prvO) => ({ m with pairs := (prvO.oid, pubO.oid) :: m.pairs }, none)
+      | _, _ => (m, none)
+    | _ => (m, none)
+  else
   match op with
   | [opn, _, mt, _] =>
     if ["encinit", "decinit", "siginit", "verinit"].contains opn then
@@ -158,9 +197,11 @@ def step (st : State) (m : Mon) (op res : List String) : Mon × Option (Option S
       match parseMechTok mt with
       | none => (m, none)
       | some (mech, p) =>
-        let key := (resolveObj st (((res.getD 2 "").toNat?).getD 0)).map (·.2.attrs)
+        let kobj := (resolveObj st (((res.getD 2 "").toNat?).getD 0)).map (·.2)
+        let key := kobj.map m.attrsOf
+        let pub : Option Attrs := kobj.bind fun ko => (m.pairs.lookup ko.oid).bind fun po => (st.objs.find? (·.oid == po)).map m.attrsOf
         let kind := if opn == "encinit" then "enc" else if opn == "decinit" then "dec" else if opn == "siginit" then "sign" else "verify"
-        (m.set h { kind := kind, mech := mech, p := p, key := key }, none)
+        (m.set h { kind := kind, mech := mech, p := p, key := key, pub := pub }, none)
     else if ["enc", "dec", "sign", "digest"].contains opn then
       -- single-part: op h data cap
       match m.get h with
